@@ -43,7 +43,9 @@ let parse_case line =
         List.filter_map
           (fun op ->
             let op = trim op in
-            if op = "" then None else Some (int_of_string (String.sub op 1 (String.length op - 1))))
+            if op = "" then None
+            else if op = "J" then Some ('J', 0)
+            else Some (op.[0], int_of_string (String.sub op 1 (String.length op - 1))))
           (split_on ',' o)
       in
       (mods, ops)
@@ -98,30 +100,68 @@ let run line =
     | EvStart (m, ps) -> let m = int_of_nat m in Printf.sprintf "start:m%d:%s" m (reads_str m ps)
     | EvEnd (m, ps) -> let m = int_of_nat m in Printf.sprintf "end:m%d:%s" m (reads_str m ps)
   in
-  let results = run_ops !the_cfg (default_fuel g) g gs0 (List.map nat_of_int ops) in
+  (* ops: L k = load; link; evaluate; drain (run_op).  P k = load; drain.  E k = link; evaluate (no drain).  J = drain. *)
+  let fuel = default_fuel g in
+  let cf = !the_cfg in
   let plog = ref 0 and ploads = ref 0 in
-  let outs =
-    List.mapi
-      (fun i (s, o) ->
-        let k = List.nth ops i in
-        let log = drop !plog s.gs_log and loads = drop !ploads s.gs_loads in
-        plog := List.length s.gs_log;
-        ploads := List.length s.gs_loads;
-        let st =
-          match o with
-          | OFulfilled -> "F"
-          | OPending -> "P"
-          | ORejected e -> "R:" ^ err_str e
-          | OPanic p -> "X:" ^ panic_str p
-          | OFuel -> "FUEL"
-        in
-        Printf.sprintf "L%d=%s~%s~%s" k st
-          (String.concat "," (List.map ev_str log))
-          (String.concat ","
-             (List.map (fun (a, b) -> Printf.sprintf "m%d>m%d" (int_of_nat a) (int_of_nat b)) loads)))
-      results
+  let evals = ref [] in
+  let outs = ref [] in
+  let pst s c = match promise_state s c with PPending -> "P" | PFulfilled -> "F" | PRejected e -> "R:" ^ err_str e in
+  let emit name st s =
+    let log = drop !plog s.gs_log and loads = drop !ploads s.gs_loads in
+    plog := List.length s.gs_log;
+    ploads := List.length s.gs_loads;
+    outs :=
+      Printf.sprintf "%s=%s~%s~%s" name st
+        (String.concat "," (List.map ev_str log))
+        (String.concat "," (List.map (fun (a, b) -> Printf.sprintf "m%d>m%d" (int_of_nat a) (int_of_nat b)) loads))
+      :: !outs
   in
-  String.concat ";" outs
+  let rec go s = function
+    | [] -> ()
+    | (kind, k) :: rest -> (
+        let name = if kind = 'J' then "J" else Printf.sprintf "%c%d" kind k in
+        let stop st s = emit name st s in
+        let cont st s = emit name st s; go s rest in
+        match kind with
+        | 'L' -> (
+            let s', o = run_op cf fuel g s (nat_of_int k) in
+            match o with
+            | OFulfilled -> cont "F" s'
+            | OPending -> cont "P" s'
+            | ORejected e -> cont ("R:" ^ err_str e) s'
+            | OPanic p -> stop ("X:" ^ panic_str p) s'
+            | OFuel -> stop "FUEL" s')
+        | 'P' -> (
+            match load fuel g s (nat_of_int k) with
+            | s1, RFuel -> stop "FUEL" s1
+            | s1, RPanic p -> stop ("X:" ^ panic_str p) s1
+            | s1, RErr e -> cont ("R:" ^ err_str e) s1
+            | s1, ROk r -> (
+                let st = match r with None -> "P" | Some None -> "F" | Some (Some e) -> "R:" ^ err_str e in
+                match run_jobs cf fuel g s1 with
+                | s2, ROk _ -> cont st s2
+                | s2, RPanic p -> stop ("X:" ^ panic_str p) s2
+                | s2, _ -> stop "FUEL" s2))
+        | 'E' -> (
+            match link fuel g s (nat_of_int k) with
+            | s1, RFuel -> stop "FUEL" s1
+            | s1, RPanic p -> stop ("X:" ^ panic_str p) s1
+            | s1, RErr e -> cont ("R:" ^ err_str e) s1
+            | s1, ROk _ -> (
+                match evaluate cf fuel g s1 (nat_of_int k) with
+                | s2, ROk c -> evals := !evals @ [ c ]; cont (pst s2 c) s2
+                | s2, RPanic p -> stop ("X:" ^ panic_str p) s2
+                | s2, RErr e -> cont ("R:" ^ err_str e) s2
+                | s2, RFuel -> stop "FUEL" s2))
+        | _ -> (
+            match run_jobs cf fuel g s with
+            | s1, ROk _ -> cont (String.concat "/" (List.map (pst s1) !evals)) s1
+            | s1, RPanic p -> stop ("X:" ^ panic_str p) s1
+            | s1, _ -> stop "FUEL" s1))
+  in
+  go gs0 ops;
+  String.concat ";" (List.rev !outs)
 
 let () =
   let rej = ref false and own = ref false and keeps = ref false in
